@@ -39,3 +39,16 @@ Theorem C06_add_load_total : forall (g:@gcon R) k v,
   snd (@add_load R RNum g k v) = match Strat.lookup k (gc_loads g) with Some old => old + v | None => v end.
 Proof. intros. split; [apply add_load_total|apply add_load_value]. Qed.
 Print Assumptions C06_add_load_total.
+
+(* ---- the executable (Q) instance that is run against /repo and the proof (R) instance agree (Transfer*.v) ---- *)
+From Coq Require Import QArith Qreals.
+From Param Require Import Param.
+From SV Require Import Transfer TransferK TransferAll.
+Theorem C06_exec_losses_is_proof_model : forall tbl soc cap rel fr fa,
+  @apply_losses R RNum (Q2R soc) (Q2R cap) (Q2R rel) (Q2R fr) (Q2R fa) = mapres Q2R (@apply_losses Q (QNum tbl) soc cap rel fr fa).
+Proof. exact apply_losses_transfer. Qed.
+Print Assumptions C06_exec_losses_is_proof_model.
+Theorem C06_exec_run_is_proof_model : forall tbl eps steps steps', list_R _ _ (SV_o_RunLoop_o_stepobs_R Q R QR) steps steps' ->
+  prod_R _ _ (list_R _ _ (SV_o_RunLoop_o_row_R Q R QR)) _ _ bool_R (@RunLoop.run Q (QNum tbl) eps steps) (@RunLoop.run R RNum (Q2R eps) steps').
+Proof. exact run_transfer. Qed.
+Print Assumptions C06_exec_run_is_proof_model.
